@@ -350,7 +350,13 @@ def check_c07(r, ex, stats):
             bad("T4", "side step to t=%r started from t=%r which is not the current trajectory state (t=%r)" %
                 (sv, s.t_in, cur_t), cls + "/from")
         elif s.dt_is_array:
-            bad("T4", "side step uses an array time step", cls + "/array")
+            # per-cell steps (local time stepping): every cell within its own CFL step, forward
+            et = expected_tick(ex, r, s)
+            okarr = s.dt.shape == et.shape and bool(np.all(s.dt >= -tol(sv, cur_t))) and \
+                bool(np.all(s.dt <= et * (1 + 1e-12) + tol(h, sv, cur_t)))
+            if not okarr:
+                bad("T4", "side step to t=%r uses a per-cell time-step array exceeding the CFL steps of its state" % sv,
+                    cls + "/array")
         elif not (-tol(sv, cur_t) <= s.dt <= h + tol(h, sv, cur_t)):
             kind = "backward" if s.dt < 0 else "long"
             bad("T4", "side step to t=%r from t=%r has length %r; CFL step is %r" % (sv, cur_t, s.dt, h),
